@@ -19,6 +19,12 @@ TRUSTED = [
     "sealed-form files are abstract: the documents the file was built from, a complete flag, an fsynced flag; all writes into one "
     "temp file are one tearable operation (tied to /repo by the multi-fraction correspondence classes)",
     "export file /repo/fracmanager/export_verif_c01.go (rotate / seal-oldest / list fractions), harness/cmd/hC01/multi.go",
+    "hand-written model props/C01/coq/ModelIntr.v of a start-up under a cancelled context: Active.Replay polls ctx.Done() once per "
+    "iteration before it reads the next meta block and returns ctx.Err() at once (no wg.Wait, no dropUnreplayedTail) -> replay_loop_ctx; "
+    "loader.load: loop 1 never polls, loop 2 replays the unsealed fractions in name order and returns the first error -> intr_walk / "
+    "startup_ctx; FracManager.Load does nothing after an error (tied to /repo by the events IStartIntr / IMStartIntr of the correspondence "
+    "run); harness/cmd/hC01/intr.go: poll-counting context (Done() live for k calls, then closed; Err() follows), child operation "
+    "open-interrupted = the real NewFracManager + FracManager.Load under it, byte-for-byte directory snapshots before/after",
 ]
 ASSUME = [
     "equal document IDs carry equal documents (a retried bulk repeats its documents unchanged); documents are non-empty",
@@ -39,6 +45,11 @@ ASSUME = [
     "its rollback (bytes of the meta block exist only while the docs block is whole); the write path before ce3aaa8 "
     "is kept as run_f0, the docs-first rollback order as fault_crash_v0, each with refutation examples",
     "store = FracManager level (fracmanager.Load / Append / Searcher / Fetcher) in a child process; GrpcV1.Bulk not driven",
+    "interrupted start-ups: the context is its poll count (a cancellation between two polls is seen at the next poll); the process of a "
+    "start-up that returned the cancellation exits (the driver kills the child; the index workers of the cancelled replay are not waited "
+    "for, as in the code); a start-up that nobody interrupts in time is an ordinary start-up (a start-up without unsealed fractions never "
+    "polls); acknowledged bulks of such histories = the model's ghost list (theorems *_acked_sound); storeapi.NewStore and the signal "
+    "handling of cmd/seq-db are not driven (FracManager.Load is)",
 ]
 RULE = ("witness family [start; bulk; crash inside next bulk at operation k torn at t; start; bulk (new or retry); start ...] "
         "for every operation boundary and boundary/random (thorough: all) torn lengths; random histories of 1-4 "
@@ -70,7 +81,21 @@ RULE = ("witness family [start; bulk; crash inside next bulk at operation k torn
         "operations of all completed steps, projected to (fraction number, file, operation; consecutive writes into one temp file "
         "merged), must equal the model's log; spec on the real observations: acknowledged bulks intact, interrupted bulks "
         "all-or-nothing and stable, search sound, every start comes up, no fraction listed twice, exactly one writable fraction and it "
-        "is not sealed; non-trivial (multi) = a rotation happened, a crash happened, and a later start came up")
+        "is not sealed; non-trivial (multi) = a rotation happened, a crash happened, and a later start came up. Interrupted start-ups (events "
+        "IStartIntr k / IMStartIntr k, child operation open-interrupted: real FracManager.Load under a context cancelled after k polls): "
+        "in every random history (single: chance 1/4 per round, multi: 1/3) after the round's way to die and optional crashed start-up, "
+        "one or two interrupted start-ups at a random poll of the start-up (or its last poll), then the ordinary start; designed families "
+        "intr-witness-nN: N = 1, 3, 5 acknowledged bulks, kill | power loss | crash inside a further bulk (torn meta block), interrupted "
+        "after k = 0..N+1 polls (quick: k = 0, 2, 5, random; thorough: every k, every way), start, bulk, interrupted at the last poll, "
+        "start; multi-intr: two or three unsealed fractions (3 + 2 (+ 2) polls), kill | power loss, interrupted after k = 0..all polls "
+        "(quick: 1/4 sampled, thorough: every k), start, bulk, interrupted at a random poll, start; multi-intr-cleanup: the same with "
+        "clean-up to do before the cancellation (leftover .meta/.docs of a complete sealed form, a rotated-in fraction that holds nothing, "
+        "a torn meta tail). Compared with the model: cancelled vs completed, lengths of .docs/.meta (multi: per fraction which of "
+        ".meta/.docs/.sdocs/.index exist and the lengths); spec on the real directory: single fraction - every file byte-identical, none "
+        "created or removed; loader - per fraction nothing changed, or .meta/.docs cut to a prefix not shorter than the complete blocks / "
+        "their Ext1 sum, .meta/.docs removed only next to complete .sdocs+.index, everything removed only when .meta held no complete "
+        "block, .sdocs/.index untouched, no temp file created; the interrupted start-up must return context.Canceled (not die); after the "
+        "following start every acknowledged document is fetched and searched as everywhere else")
 
 
 def harness_args(tier, seed, outdir):
